@@ -2,9 +2,10 @@
 //
 // Streams
 //
-//	url      pure: the request target through the real net/url parse, the dispatcher's five location lines (copied — the e2e
-//	         stream runs the real ones), the real proxy.NewUpgradeAwareHandler (normalizeLocation), the real director of
-//	         reverseproxy.NewSingleHostReverseProxy and URL.RequestURI(), against KG.Model.Forward.targetPipeline;
+//	url      pure, diff only: the request target through the real net/url parse, the dispatcher's five location lines (copied —
+//	         the end-to-end streams run the real ones and are the only ones that judge), the real proxy.NewUpgradeAwareHandler
+//	         (normalizeLocation), the real director of reverseproxy.NewSingleHostReverseProxy and URL.RequestURI(), against
+//	         KG.Model.Forward.targetPipeline;
 //	forward  end to end: raw HTTP/1.1 request -> real gateway handler chain (buildProxyHandlerChainFunc through an overlay
 //	         shim) -> real ClusterInfo/transport -> scripted raw upstream, and back; both observations are compared with the
 //	         model (diff) and judged by KG.Spec.Forward (judge);
@@ -16,6 +17,7 @@ import (
 	"bufio"
 	"encoding/json"
 	"fmt"
+	"math/rand"
 	"net/http"
 	"net/url"
 	"os"
@@ -142,27 +144,20 @@ func runURL(c *rig.Ctx, target string, record bool) bool {
 		}
 		return true
 	}
-	// judges on the implementation's output, evaluated by the Lean judges through a second model call on (target, out)
-	var j urlModel
-	_ = j
 	if m.Out == nil {
 		return fail("diff", "c04.url.accept", "net/url accepts a target the model refuses")
 	}
 	if *impl.Out != *m.Out || deref(impl.Path) != deref(m.Path) || deref(impl.RawPath) != deref(m.RawPath) || impl.Query != m.Query {
 		return fail("diff", "c04.url.out", fmt.Sprintf("model %q, code %q", rig.UnHex(deref(m.Out)), rig.UnHex(*impl.Out)))
 	}
-	// model output == code output here, so the model-side verdicts are the verdicts on the code's output
-	if !m.PathDecoded {
-		return fail("judge", "c04.path.decoded", "the upstream path decodes to a different path")
-	}
-	if !m.PathExact {
-		return fail("judge", "c04.path.exact", "a valid escaped path is not forwarded byte for byte")
-	}
-	if !m.QueryOK {
-		return fail("judge", "c04.query", "the forwarded query parses to a different multimap")
-	}
+	// This stream only ties the net/url part of the model to the real functions (the dispatcher's location lines are copied
+	// here, so nothing is JUDGED on it: verdicts come from the end-to-end streams, which run the real lines).
 	if !m.PathNorm {
-		return fail("judge", "c04.path.invalid-raw-byte-reencoded", fmt.Sprintf("the path has a byte net/url does not accept raw and is re-encoded from its decoded form (reserved bytes change between raw and escaped): upstream gets %q", rig.UnHex(*impl.Out)))
+		c.Count("url:model-says-reencoded")
+	}
+	if !m.PathDecoded || !m.PathExact || !m.QueryOK {
+		// would contradict c04_path_decoded / c04_path_exact / c04_query_multimap
+		return fail("diff", "c04.url.theorem", "the model's own output fails a judge that is proved of it")
 	}
 	return true
 }
@@ -397,6 +392,7 @@ func shrinkCase(cs Case, fails func(Case) bool) Case {
 // terminated answers
 
 type scenario struct {
+	LabelsUTF8    bool   `json:"labelsUTF8"`
 	HostIsIP      bool   `json:"hostIsIP"`
 	ClusterKnown  bool   `json:"clusterKnown"`
 	DenyAll       bool   `json:"denyAll"`
@@ -408,21 +404,22 @@ type scenario struct {
 	PopOK         bool   `json:"popOK"`
 }
 
-var termRows = []string{"unknown-host", "deny-all", "unauthenticated", "no-token", "imp-refused", "imp-malformed", "no-policy",
+var termRows = []string{"non-utf8-resource", "unknown-host", "deny-all", "unauthenticated", "no-token", "imp-refused", "imp-malformed", "no-policy",
 	"inflight", "inflight-events", "bucket", "no-ready", "disabled", "empty-subset", "ip-host", "down", "unknown-host-noauth", "deny-all-noauth"}
 
 // rowSetup turns a request into the one that triggers the row, and gives the scenario the model is asked about.
-// resourceOf asks the real RequestInfo resolver which resource a request addresses ("" for non-resource requests).
-func resourceOf(method, target string) string {
+// resourceOf asks the real RequestInfo resolver which resource a request addresses ("" for non-resource requests) and
+// whether the metric label made of it (resource[/subresource]) is valid UTF-8.
+func resourceOf(method, target string) (string, bool) {
 	u, err := url.ParseRequestURI(target)
 	if err != nil {
-		return ""
+		return "", true
 	}
 	info, err := e2e.GenericConfig(nil, nil).RequestInfoResolver.NewRequestInfo(&http.Request{Method: method, URL: u})
 	if err != nil || !info.IsResourceRequest {
-		return ""
+		return "", true
 	}
-	return info.Resource
+	return info.Resource, utf8.ValidString(info.Resource) && utf8.ValidString(info.Subresource)
 }
 
 func rowSetup(row string, cs *Case) (s scenario) {
@@ -442,8 +439,17 @@ func rowSetup(row string, cs *Case) (s scenario) {
 	if rig.UnHex(cs.Req.Method) == "HEAD" {
 		cs.Req.Method = rig.Hex("GET") // the answer to HEAD has no body to carry a Status
 	}
-	defer func() { s.Resource = rig.Hex(resourceOf(rig.UnHex(cs.Req.Method), rig.UnHex(cs.Req.Target))) }()
+	defer func() {
+		res, ok := resourceOf(rig.UnHex(cs.Req.Method), rig.UnHex(cs.Req.Target))
+		s.Resource, s.LabelsUTF8 = rig.Hex(res), ok
+	}()
 	switch row {
+	case "non-utf8-resource":
+		rowRng := rand.New(rand.NewSource(cs.Req.BodySeed)) // a function of the case, so that a replay makes the same choice
+		setHost(rig.Pick(rowRng, []string{clOK, clUnknown, clDeny, clNoReady, "127.0.0.1"}))
+		cs.Req.Target = rig.Hex(rig.Pick(rowRng, []string{"/api/v1/namespaces/x/pods/a/%ff", "/api/v1/%ff%fe", "/apis/apps/v1/namespaces/x/%c3%28/y", "/api/v1/namespaces/x/\xe9"}))
+		h := strings.ToLower(rig.UnHex(cs.Req.Host))
+		s.ClusterKnown, s.DenyAll, s.PopOK, s.HostIsIP = h != clUnknown, h == clDeny, h != clNoReady, h == "127.0.0.1"
 	case "unknown-host":
 		setHost(clUnknown)
 		s.ClusterKnown = false
@@ -617,7 +623,18 @@ func runTerm(c *rig.Ctx, w *world, cs Case, record bool) bool {
 	r1, b1 := w.totals()
 	release()
 	if o.Err != "" {
-		return fail("judge", noAnswerClass(cs), "the gateway did not answer: "+o.Err, o, nil)
+		var d struct {
+			Outcome struct{ Kind string } `json:"outcome"`
+		}
+		if err := c.Model("C04.decide", map[string]interface{}{"scenario": sc}, &d); err != nil {
+			rec(c, rig.Failure{Kind: "diff", Class: "c04.model-error", What: err.Error(), Case: cs})
+			return false
+		}
+		if d.Outcome.Kind == "aborted" {
+			// the model mirrors the code (a panic in a metric label drops the connection); the property demands an answer
+			return fail("judge", "c04.no-answer.non-utf8-path", "neither forwarded nor answered, the connection is dropped: "+o.Err, o, d)
+		}
+		return fail("judge", noAnswerClass(cs), "the gateway did not answer: "+o.Err, o, d)
 	}
 	resp := o.RawResp
 	obs := termObs{HTTPCode: resp.StatusCode, RetryAfter: -1, UpstreamRequests: r1 - r0, UpstreamBytes: b1 - b0,
@@ -655,6 +672,8 @@ func runTerm(c *rig.Ctx, w *world, cs Case, record bool) bool {
 		return false
 	}
 	switch m.Outcome.Kind {
+	case "aborted":
+		return fail("diff", "c04.term.aborted", "the model says the connection is dropped, the gateway answered", obs, m)
 	case "notProxied":
 		if !obs.NotProxied {
 			return fail("diff", "c04.term.not-proxied", "an IP-literal Host was not handed to the control-plane handler", obs, m)
@@ -792,7 +811,7 @@ func main() {
 		}
 		c.SetRule("url: one request target (path from 43 segment kinds incl. %2F %2f %25 %20 %ff%fe %41 ; + // . .. and raw bytes RFC 3986 forbids; query of 0-5 pairs from 17 keys x 20 values incl. duplicates, empty, valueless, malformed escapes, ';'; every 4th target is raw random bytes) through the real net/url + normalizeLocation + director. " +
 			"forward: one raw HTTP/1.1 round trip through the real handler chain to a scripted upstream: method (11), such a target, 0-6 header lines from 43 (hop-by-hop, Connection-listed, duplicates, casings, X-Forwarded-For, Te, Upgrade, impersonation), body none/0 B..2 MiB plain or chunked, upstream status 200-599, 0-5 of 29 response headers, body 0 B..2 MiB with Content-Length / chunked / close-delimited. " +
-			"term: one of 17 rows of the decision table on such a request. distinct = distinct canonical case; non-trivial = (url) the target has an escape, a query or a special byte; (forward) the target is not plain, or it has a query, special headers, a body, or the upstream sends special headers or a body; (term) always")
+			"term: one of 18 rows of the decision table on such a request. distinct = distinct canonical case; non-trivial = (url) the target has an escape, a query or a special byte; (forward) the target is not plain, or it has a query, special headers, a body, or the upstream sends special headers or a body; (term) always")
 		c.SetExtra("volatile_headers_canonicalised", volatileNotes)
 		c.SetExtra("never_generated", []string{"request headers Pragma, Expect, Content-Length/Transfer-Encoding other than the body writer's own, a second Host", "a Connection header naming Accept-Encoding, User-Agent, Content-Length, Authorization or the correlation header", "response header Trailer and trailers, Content-Encoding unless the client sent Accept-Encoding (net/http's transport would decode it)", "1xx upstream statuses other than the 101 of the upgrade case", "CONNECT, OPTIONS *, absolute-form targets, control bytes and spaces in the target (net/http answers 400 before any handler)"})
 		if c.Replay != "" {
